@@ -40,12 +40,24 @@ prop('C09',
               'environment faults (failing Seek on the old file, failing signature load) are outside the quantifier'],
      not_decided='alignment inside io.Copy with ReadFrom destinations; deleted files (the pool\'s error path); getBlockValidator is trusted (sticky error not verified)')
 
+PATCHER = [('/pwr/patcher', 'makeWop'), ('/pwr/patcher', '(*savingPatcher).isFullFileOp'), ('/pwr/patcher', '(*savingPatcher).checkOp'),
+           ('/pwr/patcher', '(*savingPatcher).skipFile'), ('/pwr/patcher', '(*savingPatcher).processFile'), ('/pwr/patcher', '(*savingPatcher).Resume')]
+WIRE_READ = [('/wire', 'nextPowerOf2'), ('/wire', '(*ReadContext).ReadMessage')]
+
+prop('C17',
+     functions=PATCHER + WIRE_READ,
+     assumes=['A-PROTO + cross-decoding facts (asOpType in specs/wharf.spec, from the field numbers of pwr.proto/bsdiff.proto): in-context contracts of ReadMessage in skipFile',
+              'A-POOL', 'collaborators (bowl, entry writers, save consumer) do not modify the patcher\'s containers or messages (pure list in specs/deps.spec)',
+              'Resume is verified for a fresh start (c == nil); resuming from a checkpoint trusts the checkpoint\'s own fields'],
+     not_decided='that each whitelisted file comes out identical to full application (follows from processRsync/processBsdiff consuming the same message range: their bodies are not under contract yet); reads of the recording pool')
+
 # properties with a registered check
-CLAIMED = {'C18', 'C04', 'C09'}
+CLAIMED = {'C18', 'C04', 'C09', 'C17'}
 # reasons for properties not claimed (kept current)
 NOT_APPLICABLE = {}
 LEVEL_TEXT = {
  'C18': {'text': 'Proof (modular, unbounded in write slicing and sizes): drip.Write/Close keep the ghost relation between accepted, validated and forwarded bytes for every slicing; the validate closure advances the block index once per call and emits one wound per call; ValidateAsWound/AsError decide exactly healthyBlock and report the signed block range.', 'design_ref': 'DESIGN.md §5 C18, App. A.2'},
  'C09': {'text': 'Proof: every byte a safekeeper Read hands out without error is a byte of the signed file (validated block + aligned read), nothing beyond the signed length is handed out, io.EOF is only reported at the signed end, the verdict cache only remembers valid for blocks that are on disk unchanged, and an undamaged file is never rejected at any offset 0..S.', 'design_ref': 'DESIGN.md §5 C09'},
+ 'C17': {'text': 'Proof: skipFile consumes exactly the rest of the series up to and including its end marker for either series kind (stream-grammar ghost + protobuf cross-decoding facts) and touches neither pool nor bowl (frame); Resume checks the header index and kind before consulting the whitelist, skips only unlisted files, processes only listed ones, and counts exactly the processed files.', 'design_ref': 'DESIGN.md §5 C17, App. A.5'},
  'C04': {'text': 'Proof of the function-level clauses: split function cases, one hash per scanned block plus the empty-file entry with correct index/short size, hash grouping by prefix sums of per-file hash counts (ComputeHashInfo, incl. error iff count differs), block validator verdicts; rolling/from-scratch weak hash equals the recursive specification.', 'design_ref': 'DESIGN.md §5 C04'},
 }
